@@ -14,8 +14,8 @@ from vt.oracles import tagselect
 
 ID = 'C19'
 TIERS = {
-    'quick': dict(shards=16, modules=10, argvs=40, real_every=100, watchdog_s=900),
-    'thorough': dict(shards=16, modules=250, argvs=120, real_every=1000, watchdog_s=7000),
+    'quick': dict(shards=16, modules=30, argvs=40, real_every=100, watchdog_s=900),
+    'thorough': dict(shards=16, modules=600, argvs=120, real_every=1000, watchdog_s=7000),
 }
 RULE = ('case = generated module (1-5 classes: ReferenceTestCase subclasses, a plain unittest.TestCase, subclasses of '
         'tagged/untagged classes; 0-4 tests each, tags on methods and/or classes, optional failing test) x argv spelling '
